@@ -3,10 +3,9 @@ import logging
 from pathlib import Path
 
 import voluptuous as vol
-from awesomeversion import AwesomeVersion
 from voluptuous.humanize import humanize_error
 
-from .const import SYSTEM_CHILD_ID, get_const
+from .const import SYSTEM_CHILD_ID, get_const, version_at_least
 from .message import Message
 from .sensor import Sensor
 from .task import AsyncTasks, SyncTasks
@@ -138,7 +137,7 @@ class Gateway:
             ret = child_id in self.sensors[sensorid].children
             if not ret:
                 _LOGGER.warning("Child %s is unknown", child_id)
-        if not ret and AwesomeVersion(self.protocol_version) >= AwesomeVersion("2.0"):
+        if not ret and version_at_least(self.protocol_version, "2.0"):
             _LOGGER.info("Requesting new presentation for node %s", sensorid)
             msg = Message(gateway=self).modify(
                 node_id=sensorid,
